@@ -287,6 +287,7 @@ def source_shape(chk: Check):
               'Choice': 'return any(o._nullable for o in self.options)'}
     bad = []
     seen = set()
+    posbodies = set()
     for cls in pbase.model_classes():
         name = cls.__name__
         if name in ('Model', 'Leaf', 'Box', 'NamedBox', 'Grammar', 'Patterns', 'ModelContext'):
@@ -302,12 +303,20 @@ def source_shape(chk: Check):
         fn = vars(owner)['_nullable']
         fn = getattr(fn, 'func', fn)
         src = textwrap.dedent(inspect.getsource(fn)).strip().split('\n')[-1].strip()
-        if src != bodies[want[name]]:
+        if want[name] in ('PositiveClosure', 'PositiveGather'):
+            # two modelled variants: the called rule's own nullability (as it is) / exp._nullable (repaired);
+            # detect_variant() probes which one is in force and the model is asked accordingly
+            if src not in ('return self.exp.is_nullable()', 'return self.exp._nullable'):
+                bad.append(f'{owner.__name__}._nullable body is {src!r}')
+            posbodies.add(src)
+        elif src != bodies[want[name]]:
             bad.append(f'{owner.__name__}._nullable body is {src!r}')
         isn = next((k for k in cls.__mro__ if 'is_nullable' in vars(k)), None)
         exp_isn = 'Call' if name == 'Call' else 'Model'
         if isn is None or isn.__name__ != exp_isn:
             bad.append(f'{name}.is_nullable comes from {isn.__name__ if isn else None}')
+    if len(posbodies) != 1:
+        bad.append(f'PositiveClosure and PositiveGather disagree: {sorted(posbodies)}')
     missing = [c for c in want if c not in seen and c not in ('Model',)]
     # Comment/EOLComment/Meta etc. are all registered classes; anything in the table must exist
     if missing:
@@ -326,7 +335,7 @@ def source_shape(chk: Check):
     ok = all(got[k] in v for k, v in PEGEN_HASHES.items())
     chk.obligation('T2:pegen.py/sccutils.py functions are the ones modelled (AST hash; both leader variants accepted)',
                    'translator', ok, str({k: got[k] for k in got if got[k] not in PEGEN_HASHES[k]}))
-    return got
+    return got, ('pos-repaired' if posbodies == {'return self.exp._nullable'} else 'pos-asks-rule')
 
 
 PEGEN_HASHES = {
@@ -430,6 +439,7 @@ def work(job):
         except Untranslatable as e:
             obs['untranslatable'] = 'optimized: ' + str(e)
     outs = []
+    sys.setrecursionlimit(800)      # short inputs, small grammars: bounded parses stay far below this
     for inp in inputs:
         def run(inp=inp):
             try:
@@ -439,6 +449,8 @@ def work(job):
                 return 'fail'
         r = _guarded(run, 10)
         outs.append(r[1] if r[0] == 'ok' else r[0] if r[0] != 'error' else 'error:' + r[1])
+        if r[0] in ('recursion', 'timeout'):
+            break       # one unbounded run is the verdict for this grammar; the rest of the battery is skipped
     obs['parse'] = outs
     return obs
 
@@ -555,18 +567,18 @@ def make_jobs(chk: Check):
 
     # S1: one rule, choices of <= 2 sequences of <= 2 atoms: exhaustive
     b1 = bodies(1, 2, 2)
-    for b in (b1 if not chk.quick else b1[:42] + rng.sample(b1[42:], 260)):
+    for b in (b1 if not chk.quick else b1[:42] + rng.sample(b1[42:], 160)):
         add('scope:1-rule', [b])
     # S2: two rules, one sequence of <= 2 atoms each: exhaustive (thorough) / sampled (quick)
     b2 = bodies(2, 2, 1)
     pairs = list(itertools.product(range(len(b2)), repeat=2))
     if chk.quick:
-        pairs = rng.sample(pairs, 450)
+        pairs = rng.sample(pairs, 330)
     for x, y in pairs:
         add('scope:2-rules', [b2[x], b2[y]])
     # S2b: two rules, two alternatives, sampled
     b22 = bodies(2, 2, 2)
-    for _ in range(150 if chk.quick else 2500):
+    for _ in range(100 if chk.quick else 800):
         add('scope:2-rules-2-alts', [rng.choice(b22), rng.choice(b22)])
     # S3: every digraph over 2 and 3 rules (all left-call graph shapes), edges as `j 't'`: exhaustive
     for mask in range(16):
@@ -575,24 +587,24 @@ def make_jobs(chk: Check):
     for mask in range(512):
         add('graphs:3-rules-all', digraph_grammar(3, mask))
     # S3b: 3-rule digraphs with random edge forms, non-edges, permuted names, random no_memo flags
-    for _ in range(250 if chk.quick else 4000):
+    for _ in range(180 if chk.quick else 1200):
         mask = rng.randrange(512)
         add('graphs:3-rules-forms', digraph_grammar(3, mask, 'random', rng, nonedges=True), random_names(rng, 3),
             nomemo=[rng.random() < 0.3 for _ in range(3)])
     # S3c: three rules, sequences of <= 2 atoms, sampled
     b3 = bodies(3, 2, 1)
-    for _ in range(200 if chk.quick else 4000):
+    for _ in range(150 if chk.quick else 1200):
         add('scope:3-rules', [rng.choice(b3) for _ in range(3)], random_names(rng, 3))
     b3x = bodies(2, 2, 1, extra=True)
-    for _ in range(80 if chk.quick else 1000):
+    for _ in range(80 if chk.quick else 300):
         add('scope:2-rules+positive-closure', [rng.choice(b3x) for _ in range(2)])
     # S4: larger random graphs over every node kind the analysis distinguishes
-    for _ in range(220 if chk.quick else 2500):
+    for _ in range(170 if chk.quick else 800):
         n = rng.randint(2, 7)
         add('random:larger', random_grammar(rng, n, ['t', 'u']), random_names(rng, n), inputs_tu,
             nomemo=[rng.random() < 0.25 for _ in range(n)])
     # S5: larger sparse digraphs (several components, nested cycles)
-    for _ in range(60 if chk.quick else 600):
+    for _ in range(60 if chk.quick else 250):
         n = rng.randint(4, 6)
         mask = 0
         for b in range(n * n):
@@ -631,36 +643,6 @@ def detect_variant():
     return 'unknown:' + str(got), pos
 
 
-def shrink_runtime(job, bad_outcome):
-    """drop alternatives / rules while the parse battery still shows the outcome (bounded effort)"""
-    stream, rules, names, inputs, nomemo = job
-
-    def still(rs):
-        try:
-            o = work((rs, names, inputs, None))
-        except Exception:  # noqa: BLE001
-            return False
-        return bad_outcome in o.get('parse', []) or o.get('compile') == bad_outcome
-
-    changed = True
-    budget = 40
-    while changed and budget > 0:
-        changed = False
-        for i, b in enumerate(rules):
-            if b[0] == 'choice' and len(b[1]) > 1:
-                for k in range(len(b[1])):
-                    budget -= 1
-                    alts = b[1][:k] + b[1][k + 1:]
-                    cand = rules[:i] + [alts[0] if len(alts) == 1 else ('choice', alts)] + rules[i + 1:]
-                    if budget > 0 and still(cand):
-                        rules = cand
-                        changed = True
-                        break
-                if changed:
-                    break
-    return rules
-
-
 def main():
     chk = Check(PID)
     chk.rule = ('grammars generated from trees over {rule call, token, optional, closure} (+ positive closure, group, cut, '
@@ -679,7 +661,7 @@ def main():
     chk.assumptions += ['rule names are pairwise distinct (the grammar parser rejects redefinitions)',
                         'exactness (detection iff cycle) is claimed inside the property guard only: no left call targets a '
                         'rule that can match empty']
-    got_hashes = source_shape(chk)
+    got_hashes, pos_src = source_shape(chk)
     chk.coq()
     ok, out = vlib.build_modelrun('LeftRec')
     chk.obligation('modelrun_LeftRec builds', 'build', ok, out[-500:])
@@ -688,6 +670,8 @@ def main():
     mr = ModelRun('LeftRec')
     variant, posvariant = detect_variant()
     chk.extra['positive_closure_variant'] = posvariant
+    chk.obligation('V:PositiveClosure._nullable variant probed = variant read from the source', 'translator',
+                   posvariant == pos_src, f'{posvariant} vs {pos_src}')
     chk.obligation('V:leader choice of the working tree is one of the two modelled variants', 'translator',
                    variant in ('head', 'fixed'), variant)
     chk.extra['variant'] = variant
